@@ -20,7 +20,7 @@ LEVEL = "exploration"
 TECHNIQUE = "fresh-build differential (reference interpreter on the spec with overrides) over the kind x channel x model table"
 RULE = ("kind in {none, constant, two constants, all points, only-some points, constants+points, runspec start / stop / dt / all (DSL)} x "
         "channel in {dict registration, manager base values (+ a scenario overriding them), one JSON file, manager spread over two JSON files, "
-        "begin_session settings, REST /run settings} x model in {3 SD-DSL shapes (object and file-based), 2 XMILE-sourced shapes}; 2 value draws "
+        "begin_session settings, REST /run settings} x model in {4 SD-DSL shapes incl. one built on dt()/starttime()/stoptime()/delay/pulse (object and file-based), 2 XMILE-sourced shapes}; 2 value draws "
         "(quick) / 8 (thorough). distinct_nontrivial = distinct (kind, channel, model) cells whose overridden trajectory differs from the "
         "model's own trajectory (so that an ignored override is visible).")
 ASSUMPTIONS = ["runspec overrides are generated for SD-DSL models only (as the property states)", "values compared at 1e-9 relative on the scenario's own decimal grid"]
@@ -56,6 +56,16 @@ def shapes():
         dict(name="sw", kind="converter", eq=["if", ["cmp", ">", T, r("thr")], r("h"), n(0.0)]),
         dict(name="z", kind="converter", eq=["bin", "+", ["lookup", r("q"), "p1"], ["lookup", T, "p2"]]),
         dict(name="q", kind="stock", init=0.0, eq=["bin", "-", r("sw"), ["bin", "*", r("q"), n(0.25)]])])
+    # run-spec built-ins: dt(), starttime(), stoptime(), delay and pulse must follow a scenario's run-spec overrides
+    sh["D4"] = dict(build="dsl", run=dict(start="0", stop="6", dt="0.5"), points=dict(p1=P1), elements=[
+        dict(name="a", kind="constant", value=0.25),
+        dict(name="d2", kind="converter", eq=["bin", "*", ["dt"], n(2.0)]),
+        dict(name="win", kind="converter", eq=["bin", "-", ["stoptime"], ["starttime"]]),
+        dict(name="g", kind="converter", eq=["lookup", T, "p1"]),
+        dict(name="dl", kind="converter", eq=["delay", "s", 1.0, 0.5]),
+        dict(name="dl0", kind="converter", eq=["delay", "g", 0.5, None]),
+        dict(name="f", kind="flow", eq=["bin", "+", ["bin", "+", ["pulse", 2.0, 1.0, 2.0], r("a")], ["bin", "*", r("d2"), r("g")]]),
+        dict(name="s", kind="stock", init=1.0, eq=["bin", "-", r("f"), ["bin", "*", r("dl"), n(0.1)]])])
     # XMILE shapes: spec for the reference + element list for the document; names chosen so that the
     # transpiler's sanitised names are the spec names
     sh["X1"] = dict(build="xmile", run=dict(start="0", stop="8", dt="0.5"), points=dict(gfv=XM.gf_points(dict(xscale=(0, 8), ypts=[1, 3, 2, 5, 4]))), elements=[
@@ -81,7 +91,7 @@ def shapes():
 
 
 SHAPES = shapes()
-CONSTS = {"D1": ["a", "b"], "D2": ["k", "cap"], "D3": ["thr", "h"], "X1": ["rate"], "X2": ["frac", "base"]}
+CONSTS = {"D4": ["a"], "D1": ["a", "b"], "D2": ["k", "cap"], "D3": ["thr", "h"], "X1": ["rate"], "X2": ["frac", "base"]}
 CVALS = {"a": [0.1, 0.4], "b": [1.0, 3.5], "k": [0.1, 0.5], "cap": [20.0, 80.0], "thr": [0.6, 2.9], "h": [1.0, 5.0],
          "rate": [0.02, 0.1], "frac": [0.1, 0.5], "base": [0.0, 2.0]}
 KINDS = ["none", "const1", "const2", "points_all", "points_some", "const_points", "rs_start", "rs_stop", "rs_dt", "rs_all"]
@@ -243,7 +253,7 @@ def run_case(case):
                 scen_sc = {"runspecs": copy.deepcopy(o["runspecs"])}   # run specs have no manager-level form
             else:
                 scen_sc = {}
-            scen = {"sc": scen_sc, "ovr": copy.deepcopy(dict(scen_sc, **o2))}
+            scen = {"sc": scen_sc, "sib": copy.deepcopy(scen_sc), "ovr": copy.deepcopy(dict(scen_sc, **o2))}
             second = ("ovr", dict(o, **({"constants": dict(o.get("constants", {}), **o2.get("constants", {}))} if o2 else {})))
             mgr = dict(frag, scenarios=scen, **base)
             b = bptk()
@@ -300,6 +310,26 @@ def run_case(case):
             else:
                 js = json.loads(resp.get_data(as_text=True))
                 results["sc"] = {nme: {float(t): float(v) for t, v in js["sm"]["sc"]["equations"].get(nme, {}).items()} for nme in names}
+        if w is None and ch == "base" and ("constants" in o or "points" in o):
+            # a later settings delivery to one scenario must not rewrite the manager's base values for its siblings
+            other = {}
+            if "constants" in o:
+                c0 = sorted(o["constants"])[0]
+                other["constants"] = {c0: 7.75}
+            if "points" in o:
+                p0 = sorted(o["points"])[0]
+                other["points"] = {p0: [[0.0, 9.0], [5.0, 9.0]]}
+            b.begin_session(scenarios=["sc"], scenario_managers=["sm"], settings={"sm": {"sc": other}}, equations=list(names)[:2])
+            b.run_step()
+            b.end_session()
+            b.register_scenarios({"late": copy.deepcopy(scen["sib"])}, "sm")     # registered after the delivery: base values still apply
+            for sname in ("sib", "late"):
+                b.reset_scenario_cache(scenario_manager="sm", scenario=sname)
+                dfx = b.run_scenarios(scenarios=[sname], scenario_managers=["sm"], equations=list(names), return_format="dict")
+                counters["scenarios_run"] = counters.get("scenarios_run", 0) + 1
+                eqs = dfx["sm"][sname]["equations"]
+                results["sc+" + sname] = {nme: {float(t): float(v) for t, v in eqs[nme].items()} for nme in names if nme in eqs}
+            del b.scenario_manager_factory.scenario_managers["sm"].scenarios["sc"]    # sc itself now carries the session settings: not compared again
         if w is None:
             todo = [s for s in ("sc", "plain", "ovr") if s in b.scenario_manager_factory.scenario_managers["sm"].scenarios]
             for sname in todo:
